@@ -12,10 +12,10 @@ using namespace xr;
 static std::string g_echsx, g_shim;
 static bool g_trace = false;
 
-struct Case { int row = 4; long osize = 0, esize = 0; int exitc = 0, sig = 0; int bash = 0; int umask = 022; int ifile = 0; int mailrun = 0; int att = 1; int concurrent = 1; int nap = 0; };   // nap: the job also sleeps that many ms (run times that cross a clock second)
+struct Case { int row = 4; long osize = 0, esize = 0; int exitc = 0, sig = 0; int bash = 0; int umask = 022; int ifile = 0; int mailrun = 0; int att = 1; int concurrent = 1; int nap = 0; int plainum = 0; };   // plainum: the umask is spelled without the leading zero (it is octal all the same)   // nap: the job also sleeps that many ms (run times that cross a clock second)
 
-static std::string ctext(const Case &c) { char b[256]; snprintf(b, sizeof b, "row=%d osize=%ld esize=%ld exit=%d sig=%d bash=%d umask=0%o ifile=%d mailrun=%d att=%d concurrent=%d", c.row, c.osize, c.esize, c.exitc, c.sig, c.bash, c.umask, c.ifile, c.mailrun, c.att, c.concurrent); return std::string(b) + " nap=" + std::to_string(c.nap); }
-static bool cparse(const std::string &t, Case &c) { unsigned um = 022; int n = sscanf(t.c_str(), "row=%d osize=%ld esize=%ld exit=%d sig=%d bash=%d umask=%o ifile=%d mailrun=%d att=%d concurrent=%d", &c.row, &c.osize, &c.esize, &c.exitc, &c.sig, &c.bash, &um, &c.ifile, &c.mailrun, &c.att, &c.concurrent); c.umask = (int)um; size_t np = t.find(" nap="); c.nap = np == std::string::npos ? 0 : atoi(t.c_str() + np + 5); return n == 11; }
+static std::string ctext(const Case &c) { char b[256]; snprintf(b, sizeof b, "row=%d osize=%ld esize=%ld exit=%d sig=%d bash=%d umask=0%o ifile=%d mailrun=%d att=%d concurrent=%d", c.row, c.osize, c.esize, c.exitc, c.sig, c.bash, c.umask, c.ifile, c.mailrun, c.att, c.concurrent); return std::string(b) + " nap=" + std::to_string(c.nap) + " plainum=" + std::to_string(c.plainum); }
+static bool cparse(const std::string &t, Case &c) { unsigned um = 022; int n = sscanf(t.c_str(), "row=%d osize=%ld esize=%ld exit=%d sig=%d bash=%d umask=%o ifile=%d mailrun=%d att=%d concurrent=%d", &c.row, &c.osize, &c.esize, &c.exitc, &c.sig, &c.bash, &um, &c.ifile, &c.mailrun, &c.att, &c.concurrent); c.umask = (int)um; size_t np = t.find(" nap="); c.nap = np == std::string::npos ? 0 : atoi(t.c_str() + np + 5); size_t pp = t.find(" plainum="); c.plainum = pp == std::string::npos ? 0 : atoi(t.c_str() + pp + 9); return n == 11; }
 
 // stdout speaks lower case and '\n', stderr upper case and '|': any mix of the two can be taken apart again
 static std::string stream(long size, bool err) { std::string s; s.reserve((size_t)size); long k = 0; while ((long)s.size() < size) { char ln[32]; int n = snprintf(ln, sizeof ln, "%ld", k++); for (int i = 0; i < n && (long)s.size() < size; i++) s += (char)((err ? 'A' : 'a') + (ln[i] - '0')); if ((long)s.size() < size) s += err ? '|' : '\n'; } return s; }
@@ -44,7 +44,7 @@ static Verdict judge(const Case &c) {
 	if (c.sig) job += "kill -" + std::to_string(c.sig) + " $$\nsleep 5\n"; else job += "exit " + std::to_string(c.exitc) + "\n";
 	spit(jd + "/job.sh", job);
 	std::string cmd = ". ./job.sh";
-	char um[16]; snprintf(um, sizeof um, "0%o", c.umask);
+	char um[16]; snprintf(um, sizeof um, c.plainum ? "%o" : "0%o", c.umask);
 	std::string req = "BEGIN:VCALENDAR\nVERSION:2.0\nBEGIN:VTODO\nUID:c13job\nSUMMARY:" + cmd + "\nX-ECHS-SETUID:" + std::to_string(getuid()) + "\nX-ECHS-SETGID:" + std::to_string(getgid()) + "\nX-ECHS-SHELL:" + (c.bash ? "/bin/bash" : "/bin/sh") + "\nLOCATION:" + jd + "\nX-ECHS-UMASK:" + um + "\n";
 	req += std::string("X-ECHS-MAIL-RUN:") + (c.mailrun ? "1" : "0") + "\nX-ECHS-MAIL-OUT:" + (Mo ? "1" : "0") + "\nX-ECHS-MAIL-ERR:" + (Me ? "1" : "0") + "\n";
 	if (c.ifile) req += "X-ECHS-IFILE:" + wd + "/in.txt\n"; if (!of.empty()) req += "X-ECHS-OFILE:" + of + "\n"; if (!ef.empty()) req += "X-ECHS-EFILE:" + ef + "\n";
@@ -111,7 +111,7 @@ void prop_gen(Ctx &c) {
 		int so = *R(0, 10), se = *R(0, 10);
 		cs.osize = so < 8 ? SZ[so] : *R(0, 300000); cs.esize = se < 8 ? SZ[se] : *R(0, 300000);
 		int end = *R(0, 9); if (end < 5) cs.exitc = 0; else if (end < 8) cs.exitc = *R(1, 255); else cs.sig = SIG[*R(0, 5)];
-		cs.bash = *R(0, 2); static const int UM[] = {022, 077, 0, 027, 0177}; cs.umask = UM[*R(0, 5)]; cs.ifile = *R(0, 2); cs.mailrun = *R(0, 3) == 0; cs.att = *R(0, 7) != 0; cs.concurrent = *R(0, 3) != 0; if (*R(0, 5) == 0) cs.nap = *R(100, 600);
+		cs.bash = *R(0, 2); static const int UM[] = {022, 077, 0, 027, 0177}; cs.umask = UM[*R(0, 5)]; cs.ifile = *R(0, 2); cs.mailrun = *R(0, 3) == 0; cs.att = *R(0, 7) != 0; cs.concurrent = *R(0, 3) != 0; if (*R(0, 5) == 0) cs.nap = *R(100, 600); cs.plainum = *R(0, 4) == 0;
 		std::string txt = ctext(cs);
 		Verdict v = judge(cs);
 		c.st.record(txt, v);
